@@ -7,6 +7,10 @@ use sourcemap::SourceMap;
 use std::sync::Arc;
 
 fn mk(toks: &Value, shuffle_seed: u64) -> SourceMap {
+    mk_named(toks, shuffle_seed, "f.js")
+}
+/// the same, with a chosen file name (it may be spelled like one of the sources "s0", "s1", ...)
+fn mk_named(toks: &Value, shuffle_seed: u64, file: &str) -> SourceMap {
     let mut raw = raw_tokens(&json!({"toks": toks}));
     if shuffle_seed != 0 {
         let mut r = Rng::new(shuffle_seed);
@@ -14,7 +18,7 @@ fn mk(toks: &Value, shuffle_seed: u64) -> SourceMap {
     }
     let nsrc = raw.iter().filter(|t| t.src_id != !0).map(|t| t.src_id + 1).max().unwrap_or(0);
     let nnm = raw.iter().filter(|t| t.name_id != !0).map(|t| t.name_id + 1).max().unwrap_or(0);
-    SourceMap::new(Some(Arc::from("f.js")), raw,
+    SourceMap::new(Some(Arc::from(file)), raw,
                    (0..nnm).map(|i| Arc::from(format!("n{}", i))).collect(),
                    (0..nsrc).map(|i| Arc::from(format!("s{}", i))).collect(),
                    Some((0..nsrc).map(|i| if i % 2 == 0 { Some(Arc::from(format!("content {}", i))) } else { None }).collect()))
@@ -23,7 +27,8 @@ fn mk(toks: &Value, shuffle_seed: u64) -> SourceMap {
 pub fn run(case: &Value, em: &mut Emitter) {
     let seed = case.get("shuffle").and_then(|s| s.as_u64()).unwrap_or(0);
     let out = guard(|| {
-        let mut orig = mk(&case["orig"], seed);
+        // the file name of the map may coincide with a source name of either map: it has no bearing on the composition
+        let mut orig = mk_named(&case["orig"], seed, ["f.js", "s0", "s1", "s2"][(seed % 4) as usize]);
         let mut adj = mk(&case["adj"], seed.wrapping_mul(31));
         // what the two maps say about themselves (debug id, file, root) has no bearing on the composition: equal,
         // different or absent on either side
